@@ -188,6 +188,6 @@ package types
 
 // ---- the trusting period is small enough for timestamp + trusting period not to wrap (C18: a created client is active) ----
 // verif:func (ClientState).Validate
-//@ ensures [trusting-period-bounded] result == nil ==> cs.TrustingPeriod <= 0x7fffffffffffffff
+//@ ensures [trusting-period-bounded] result == nil ==> cs.TrustingPeriod <= 0x7fffffffffffffff && cs.Header.Time <= 0x7fffffffffffffff
 // the anchor's consensus state is stored at the anchor's height, which genesis validation requires to be non-zero (C13)
 //@ ensures [not-anchored-at-block-zero] result == nil ==> cs.Header.Height.RevisionHeight != 0
